@@ -25,6 +25,8 @@ pub fn challenge_dimension() -> (r: usize) ensures r == sp_dim() { unimplemented
 
 pub trait AirStub {
     spec fn sp_width(&self) -> nat;
+    /// the number of preprocessed columns the AIR's constraints read (RecursiveAir has no accessor for it: the verifiers take the width from the proof / common data)
+    spec fn sp_prep_width(&self) -> nat;
     fn width(air: &Self) -> (r: usize) ensures r == air.sp_width();
 }
 @@TYPES@@
@@ -82,6 +84,9 @@ pub proof fn lemma_shl_is_pow2(k: usize)
 /// what the fold/query code after the prefix indexes with (lengths agree with the global schedule)
 /// the number of FRI queries the verifier is configured with (native FriParameters::num_queries); the in-circuit verifier's parameters do not carry it
 pub uninterp spec fn sp_configured_num_queries() -> usize;
+/// F::TWO_ADICITY
+pub uninterp spec fn sp_two_adicity() -> nat;
+#[verifier::external_body] pub fn two_adicity_() -> (r: usize) ensures r == sp_two_adicity() { unimplemented!() }
 pub open spec fn fri_shape_ok(fp: &FriProofTargets, n_betas: nat, ibq: Seq<Vec<Target>>, log_blowup: nat) -> bool {
     &&& n_betas > 0
     &&& fp.commit_phase_commits@.len() == n_betas && fp.commit_pow_witnesses@.len() == n_betas && fp.log_arities@.len() == n_betas
@@ -93,6 +98,7 @@ pub open spec fn fri_shape_ok(fp: &FriProofTargets, n_betas: nat, ibq: Seq<Vec<T
             (#[trigger] fp.query_proofs@[q].commit_phase_openings@[p]).log_arity == fp.log_arities@[p]
             && fp.query_proofs@[q].commit_phase_openings@[p].sibling_coefficients@.len() == (pow2i(fp.log_arities@[p] as int) - 1) * sp_dim()
     &&& ibq[0]@.len() >= seq_sum(fp.log_arities@) + log_blowup
+    &&& ibq[0]@.len() <= sp_two_adicity()        // every domain generator is F::two_adic_generator(h) with h <= log_max_height
     &&& fp.final_poly@.len() == pow2i(ibq[0]@.len() - seq_sum(fp.log_arities@) - log_blowup)
 }
 } // verus!
@@ -122,6 +128,7 @@ def build():
               '({ let mut any_ = false; for k_ in 0..opened_quotient_chunks.len() { let opened_chunk = &opened_quotient_chunks[k_]; if opened_chunk.len() != challenge_dimension() { any_ = true; } } any_ })')
     normalize_let_chains(v)
     v.ensures('ok_iff_well_formed', 'ret is Ok <==> uni_shape_ok(air, opened_values, preprocessed_width as nat, preprocessed_commit.is_some(), quotient_degree as nat)')
+    v.ensures('H_the_preprocessed_width_checked_against_is_the_airs_own', 'ret is Ok ==> preprocessed_width == air.sp_prep_width()')
     v.ensures('malformed_is_invalid_proof_shape', 'ret matches Err(e) ==> e is InvalidProofShape')
     v.loop('for k_ in 0..opened_quotient_chunks.len()', invariants=[
         ('any', 'any_ == exists|j: int| 0 <= j < k_ && (#[trigger] opened_quotient_chunks@[j])@.len() != sp_dim()'),
@@ -141,6 +148,7 @@ def build():
     f.erase_macro('tracing::debug!')
     f.erase_error_messages('VerificationError::InvalidProofShape')
     f.rewrite('R11', 'let ef_dim = EF::DIMENSION;', 'let ef_dim = challenge_dimension();')
+    f.rewrite_re('R11', r'\bF::TWO_ADICITY\b', 'two_adicity_()', min_count=0)
     f.rewrite('R6', 'let total_log_reduction: usize = log_arities.iter().sum();',
               'let mut total_log_reduction: usize = 0; for s_ in 0..log_arities.len() { total_log_reduction = total_log_reduction + log_arities[s_]; }')
     f.rewrite('R6', 'index_bits_per_query .iter() .any(|v| v.len() != log_max_height)',
